@@ -5,9 +5,11 @@ import Driver.SalsaH
 import Driver.RandBytesH
 import Driver.SettersH
 import Driver.SerialH
+import Driver.CowH
+import Driver.ExprH
 namespace Driver
 
-def allHandlers : List (String × Handler) := opsHandlers ++ nttHandlers ++ nttHandlers2 ++ tabHandlers ++ salsaHandlers ++ rbHandlers ++ settersHandlers ++ serialHandlers
+def allHandlers : List (String × Handler) := opsHandlers ++ nttHandlers ++ nttHandlers2 ++ tabHandlers ++ salsaHandlers ++ rbHandlers ++ settersHandlers ++ serialHandlers ++ cowHandlers ++ exprHandlers
 
 def findHandler (op : String) : Option Handler := (allHandlers.find? (·.1 == op)).map (·.2)
 
